@@ -754,13 +754,8 @@ macro_rules! impl_signed_ints(
         $(
             impl ViewBounds for $int_type {
                 fn view_bounds(self, size: usize) -> Option<(usize, usize)> {
-                    let size = size as $int_type;
-                    if self < -size || self >= size {
-                        None
-                    } else {
-                        let start = clamp(self + size, 0, 2 * size - 1) % size;
-                        Some((start as usize, (start + 1) as usize))
-                    }
+                    let index = self as i64;
+                    range_bounds(index..=index, size)
                 }
             }
         )+
@@ -793,8 +788,8 @@ macro_rules! impl_range_ints(
                 fn view_bounds(self, size: usize) -> Option<(usize, usize)> {
                     range_bounds(
                         Range {
-                            start: self.start as i64,
-                            end: self.end as i64,
+                            start: index_i64(self.start),
+                            end: index_i64(self.end),
                         },
                         size,
                     )
@@ -803,27 +798,27 @@ macro_rules! impl_range_ints(
 
             impl ViewBounds for RangeFrom<$int_type> {
                 fn view_bounds(self, size: usize) -> Option<(usize, usize)> {
-                    range_bounds(RangeFrom { start: self.start as i64 }, size)
+                    range_bounds(RangeFrom { start: index_i64(self.start) }, size)
                 }
             }
 
             impl ViewBounds for RangeTo<$int_type> {
                 fn view_bounds(self, size: usize) -> Option<(usize, usize)> {
-                    range_bounds(RangeTo { end: self.end as i64 }, size)
+                    range_bounds(RangeTo { end: index_i64(self.end) }, size)
                 }
             }
 
             impl ViewBounds for RangeInclusive<$int_type> {
                 fn view_bounds(self, size: usize) -> Option<(usize, usize)> {
-                    let start = *self.start() as i64;
-                    let end = *self.end() as i64;
+                    let start = index_i64(*self.start());
+                    let end = index_i64(*self.end());
                     range_bounds(start..=end, size)
                 }
             }
 
             impl ViewBounds for RangeToInclusive<$int_type> {
                 fn view_bounds(self, size: usize) -> Option<(usize, usize)> {
-                    let end = self.end as i64;
+                    let end = index_i64(self.end);
                     range_bounds(..=end, size)
                 }
             }
@@ -832,30 +827,40 @@ macro_rules! impl_range_ints(
 );
 impl_range_ints!(u8, i8, u16, i16, u32, i32, u64, i64, usize, isize);
 
+/// Convert index of any integer type to `i64`, values that do not fit are saturated
+fn index_i64<T>(index: T) -> i64
+where
+    i64: TryFrom<T>,
+{
+    i64::try_from(index).unwrap_or(i64::MAX)
+}
+
 fn range_bounds(bound: impl RangeBounds<i64>, size: usize) -> Option<(usize, usize)> {
-    //  (index + size) % size - almost works
-    //  0  1  2  3  4  5  6  7  8  9  0  1  2  3  4  5  6  7  8  9
-    //-10 -9 -8 -7 -6 -5 -4 -3 -2 -1  0  1  2  3  4  5  6  7  8  9
-    let size = size as i64;
+    let size = index_i64(size);
     if size == 0 {
         return None;
     }
 
-    let (start, offset) = match bound.start_bound() {
-        Bound::Unbounded => (0, 0),
-        Bound::Included(start) => (*start, 0),
-        Bound::Excluded(start) => (*start, 1),
+    // negative index counts from the end
+    let resolve = |index: i64| {
+        if index < 0 {
+            index.saturating_add(size)
+        } else {
+            index
+        }
     };
-    let offset = if start >= size { 1 } else { offset };
-    let start = clamp(start + size, 0, 2 * size - 1) % size + offset;
-
-    let (end, offset) = match bound.end_bound() {
-        Bound::Unbounded => (-1, 1),
-        Bound::Included(end) => (*end, 1),
-        Bound::Excluded(end) => (*end, 0),
+    let start = match bound.start_bound() {
+        Bound::Unbounded => 0,
+        Bound::Included(start) => resolve(*start),
+        Bound::Excluded(start) => resolve(*start).saturating_add(1),
     };
-    let offset = if end >= size { 1 } else { offset };
-    let end = clamp(end + size, 0, 2 * size - 1) % size + offset;
+    let end = match bound.end_bound() {
+        Bound::Unbounded => size,
+        Bound::Included(end) => resolve(*end).saturating_add(1),
+        Bound::Excluded(end) => resolve(*end),
+    };
+    let start = clamp(start, 0, size);
+    let end = clamp(end, 0, size);
 
     if end <= start {
         None
